@@ -165,4 +165,18 @@ PROPS = {
         "assumptions": [],
         "not_decided": ["the output stream equals what the branch alone would produce (relational)", "output forwarding correctness (bind_branch_output)"],
     },
+    "C11": {
+        "modules": ["contracts.c11_reduce"],
+        "level": "proof",
+        "design_ref": "DESIGN.md section 8, C11",
+        "trusted_base": [
+            "std::bit_floor(x) returns the power of two p with p <= x < 2p; for that p, capacity >> (bit_width(p) - 1) == capacity / p "
+            "(leaf_capacity is a power of two: maintained by the growth code, not verified here)",
+            "live leaves occupy the dense prefix [0, dense_to_key.size()) (remove_leaf_at / reconcile_leaf_state, not verified here)",
+            "the combiner instances are wired to the aggregates these functions name (bind_combiner_inputs / rebuild_structure: ops-table heavy, not verified)",
+        ],
+        "assumptions": [],
+        "not_decided": ["that the published value is the fold (combiner wiring and publication)", "order-independence of the result value (needs a commutative user combiner)",
+                        "reduce_layout (wiring-time tree for fixed TSL) is not yet under contract"],
+    },
 }
